@@ -190,6 +190,10 @@ func (h *H) onWire(g *pktgen.Gen, cs pktgen.Case, x proto.Packet, enc1 []byte, p
 		return b
 	}
 	ref := canon(x, enc1)
+	// four values are enough to tell "not on the wire" from "on the wire": sparse, rich, alt, last
+	if len(al) > 4 {
+		al = []pktgen.Val{al[0], al[1], al[2], al[len(al)-1]}
+	}
 	for _, val := range al {
 		y := cs.Build()
 		ok := true
@@ -213,6 +217,7 @@ func (h *H) onWire(g *pktgen.Gen, cs pktgen.Case, x proto.Packet, enc1 []byte, p
 func TestVerif(t *testing.T) {
 	vrt.Run(t, "C04", func(r *vrt.R) {
 		h := &H{r: r}
+		pktgen.Thorough = r.Thorough()
 		var rp replay
 		if r.ReplayInto(&rp) {
 			c, ok := pktgen.FindCell(rp.Cell)
